@@ -183,6 +183,13 @@ def render(case):
                                    "classes": ["MissingTocTreeEntry"], "kind": "toctree_missing", "in": "page", "n": m})
         elif not p.get("toc"):
             faults.append({"file": fid, "line": 0, "classes": ["OrphanedPage"], "kind": "orphan", "in": "page", "n": p["name"]})
+        if p.get("bom"):
+            # the very first line of such a file is a label that the index refers to
+            head = [f".. _top-{p['name'].replace('/', '-')}:", ""] + head
+            for f_ in faults:
+                if f_["file"] == fid and f_["kind"] == "toctree_missing":
+                    f_["line"] += 2
+                    f_["alt_line"] += 2
         body = render_blocks(p["blocks"], fid, faults, len(head), "page")
         sel = p.get("selector")
         if sel == "both_inc":
@@ -205,10 +212,17 @@ def render(case):
         if p.get("crlf"):
             # the same page saved with Windows line ends: same lines, same problems at the same lines
             files["source/" + fid] = ("\r\n".join(head + body) + "\r\n").encode("utf-8")
+        if p.get("bom"):
+            # ... or saved by an editor that puts a byte-order mark in front of UTF-8 text: the mark is not part of the text
+            raw = files["source/" + fid]
+            files["source/" + fid] = b"\xef\xbb\xbf" + (raw if isinstance(raw, bytes) else raw.encode("utf-8"))
         for b in p["blocks"]:
             if b["t"] == "bad_image_file":
                 files[f"source/images/garbage-{b['n']}.png"] = b"this is not a png file\n"
 
+    refs = [f"See :ref:`top-{p['name'].replace('/', '-')}`." for p in case["pages"] if p.get("bom")]
+    if refs and isinstance(files.get("source/index.txt"), str):
+        files["source/index.txt"] += "\n" + "\n\n".join(refs) + "\n"
     # a page that is not UTF-8: reported under the page at the line that holds the first undecodable byte, whatever stands before the
     # byte on the way (letters of several bytes, "\r\n" or lone "\r" line ends)
     g = case.get("garbled")
@@ -680,6 +694,8 @@ class C14(core.PropertyCheck):
                 p["selector"] = rng.choice(["tabs", "tabs", "method", "both", "both_inc"])
             if rng.random() < 0.15:
                 p["crlf"] = True
+            if rng.random() < 0.1:
+                p["bom"] = True
         includes = []
         for i in range(rng.choice([0, 1, 1, 2])):
             # (sometimes a name that is not ASCII, spelled letter + combining accent as some systems hand names out)
@@ -764,6 +780,9 @@ class C14(core.PropertyCheck):
                 yield case
         for t in PAGE_FAULTS:
             pages = [{"name": "index", "toc": True, "blocks": []}, {"name": "alpha", "toc": True, "crlf": True, "blocks": [{"t": "text", "n": 1}, {"t": t, "n": 2}]}]
+            yield {"kind": "e2e", "pages": pages, "includes": [], "yaml": [], "config": dict(base_cfg), "toc_missing": []}
+        for t in ("text", "unknown_directive", "conflict"):
+            pages = [{"name": "index", "toc": True, "blocks": []}, {"name": "alpha", "toc": True, "bom": True, "blocks": [{"t": "text", "n": 1}, {"t": t, "n": 2}]}]
             yield {"kind": "e2e", "pages": pages, "includes": [], "yaml": [], "config": dict(base_cfg), "toc_missing": []}
         for style in ("plain", "multibyte", "crlf", "cr"):
             pages = [{"name": "index", "toc": True, "blocks": []}, {"name": "alpha", "toc": True, "blocks": [{"t": "text", "n": 1}]}]
